@@ -9,7 +9,7 @@
    Part 3  an interleaving system of the goroutines that matter for Close / Conn.Close on ONE channel:
              the reader goroutine (Conn.ReadFrom: loop guard, Packet.ReadFrom, routing, Channel.WritePacket:
                RLock, closed?, one send on packageCh per package, RUnlock; errors go to Conn.errCh),
-             the closing goroutine (Channel.Close: closed?; teardown packet or logout (send, wait for the answer
+             the closing goroutine (Channel.Close: closed?; compare-and-swap of `closing`; teardown packet or logout (send, wait for the answer
                with a one-minute context); Lock; closed = true; unregister; drain; Unlock; for Conn.Close then
                ctxCancel(); conn.Close()),
              the peer's answer to the logout, the expiry of the logout's one-minute context.
@@ -173,6 +173,7 @@ Inductive rpc :=
 
 Inductive cpc :=
 | CStart                    (* RLock; closed := tdsChan.closed; RUnlock *)
+| CCas                      (* if !atomic.CompareAndSwapInt32(&tdsChan.closing, 0, 1) { return ErrChannelClosed } *)
 | CSend                     (* teardown packet, or the logout package *)
 | CLogoutWait               (* Logout: NextPackage(ctx with one-minute timeout, wait) *)
 | CLockReq                  (* tdsChan.Lock() announced: new RLocks block *)
@@ -247,7 +248,11 @@ Definition reader_step (s : sys) : option sys :=
 Definition closer_step (s : sys) : option sys :=
   match cp s with
   | CStart => if wpend s || wheld s then None
-              else Some (set_c s (if closed s then CDone 2 else CSend))
+              else Some (set_c s (if closed s then CDone 2 else CCas))
+  | CCas =>
+      (* `closing` is only ever set by a caller of Close: for the ONLY closing goroutine of this system the
+         compare-and-swap succeeds (several closers of one channel: C13/Closers.v) *)
+      Some (set_c s CSend)
   | CSend =>
       if kind0 s && conn_done s
       then (* the logout's SendPackage finds the connection context done: error, no wait for an answer *)
